@@ -18,9 +18,12 @@ def load():
 
 
 def verify_function(repo, reg, qualname, arity=None, timeout_ms=20000):
+    variant = None
+    if "#" in qualname:
+        qualname, variant = qualname.split("#")
     fi = repo.find(qualname)
     prover = Prover(timeout_ms=timeout_ms)
-    v = Verifier(repo, prover, reg, fi)
+    v = Verifier(repo, prover, reg, fi, key=fi.qualname + ("#" + variant if variant else ""))
     t0 = time.time()
     err = None
     try:
